@@ -82,6 +82,9 @@ pub use mpc::protocol::{Error, MpcError, mpc};
 #[doc(hidden)]
 pub mod bench_reexports;
 mod block;
+#[cfg(feature = "__verif")]
+#[doc(hidden)]
+pub mod verif;
 pub mod channel;
 mod ot;
 mod ot_core;
